@@ -19,6 +19,8 @@ structure Cfg where
   peers : List (Nat × C03.MState)      -- monitor's view of each peer
   paths : List (Nat × Nat)             -- IPFS path id ↦ cid (absent: resolve fails)
   blocks : List (Nat × List Nat)       -- cid ↦ links of the cluster-DAG block (absent: BlockGet fails)
+  lost : List (Nat × List Nat) := []   -- cluster-DAG blocks that exist as content but cannot be fetched (BlockGet
+                                       -- fails): invisible to the code and to the model, known to the property
   deriving Repr
 
 inductive Op where
